@@ -329,6 +329,96 @@ def shared_serde(res, st, rng, tier):
                 res.case(case)
 
 
+def graphs_and_histories(res, st, rng, tier):
+    """values the generic comparison cannot walk (reference cycles), pickles far above any internal buffer size, and a class
+    whose module-level name is re-bound between two round trips"""
+    from pymemcache import serde
+    serdes = []
+    for proto in range(0, 6):
+        serdes.append(("PickleSerde(%d)" % proto, shared("pickle", proto)))
+        serdes.append(("CompressedSerde(zlib,10,pickle %d)" % proto, shared("compressed", proto, 10, "zlib")))
+        serdes.append(("CompressedSerde(identity,0,pickle %d)" % proto, shared("compressed", proto, 0, "identity")))
+    serdes.append(("pickle_serde", serde.pickle_serde))
+    serdes.append(("compressed_serde", serde.compressed_serde))
+    serdes.append(("LegacyWrappingSerde(python_memcache_*)",
+                   serde.LegacyWrappingSerde(serde.python_memcache_serializer, serde.python_memcache_deserializer)))
+
+    def rt(label, sd, v, case):
+        try:
+            form, flags = sd.serialize("key", v)
+        except Broken:
+            res.violation("untransmittable-form:%s" % label.split("(")[0], "%s: %s for a %s" % (label, st["last"], case[1]), case)
+            return None
+        except Exception as e:
+            res.violation("serialize-raises:%s:%s:%s" % (label.split("(")[0], case[1], type(e).__name__),
+                          "%s.serialize(<%s>) raised %r" % (label, case[1], e), case)
+            return None
+        if not isinstance(form, (bytes, str)):
+            res.violation("untransmittable-form:%s" % label.split("(")[0], "%s: serialized form of a %s is %s" % (label, case[1], type(form).__name__), case)
+            return None
+        try:
+            back = sd.deserialize("key", wire(form), flags)
+        except Exception as e:
+            res.violation("deserialize-raises:%s:%s:%s" % (label.split("(")[0], case[1], type(e).__name__),
+                          "%s.deserialize raised %r for a %s" % (label, e, case[1]), case)
+            return None
+        res.count("round_trips")
+        return back
+
+    for label, sd in serdes:
+        # 1. reference cycles
+        lst = [1, "two"]
+        lst.append(lst)
+        back = rt(label, sd, lst, ("graph", "list-containing-itself", label))
+        if back is not None and not (type(back) is list and len(back) == 3 and back[:2] == [1, "two"] and back[2] is back):
+            res.violation("value-changed:%s:cyclic-list" % label.split("(")[0], "%s: a list containing itself came back as %r" % (label, type(back)), ("graph", "list", label))
+        dct = {"name": "d"}
+        dct["self"] = dct
+        back = rt(label, sd, dct, ("graph", "dict-containing-itself", label))
+        if back is not None and not (type(back) is dict and set(back) == {"name", "self"} and back["self"] is back):
+            res.violation("value-changed:%s:cyclic-dict" % label.split("(")[0], "%s: a dict containing itself came back wrong" % label, ("graph", "dict", label))
+        root = valuegen.TreeNode("root")
+        kids = [valuegen.TreeNode("kid%d" % i, root) for i in range(3)]
+        valuegen.TreeNode("grandchild", kids[1])
+        back = rt(label, sd, root, ("graph", "parent-linked-tree", label))
+        if back is not None and not (type(back) is valuegen.TreeNode and [c.name for c in back.children] == ["kid0", "kid1", "kid2"]
+                                     and all(c.parent is back for c in back.children)
+                                     and back.children[1].children[0].parent is back.children[1]):
+            res.violation("value-changed:%s:parent-linked-tree" % label.split("(")[0], "%s: tree came back with broken links" % label, ("graph", "tree", label))
+        shared_leaf = ["leaf"]
+        both = [shared_leaf, shared_leaf]
+        back = rt(label, sd, both, ("graph", "shared-substructure", label))
+        if back is not None and not (back == both and back[0] is back[1]):
+            res.violation("value-changed:%s:shared-substructure" % label.split("(")[0], "%s: two references to one list came back as %r" % (label, back), ("graph", "shared", label))
+        res.count("object_graphs_with_cycles", 4)
+        res.case(("graph", label))
+    # 2. pickles far above any internal buffer size (128 KiB, 1 MiB), incompressible and compressible
+    bigs = [("list-with-150000-random-bytes", [rng.randbytes(150000), 7]), ("dict-of-3000-random-strings", {i: rng.randbytes(48).hex() for i in range(3000)}),
+            ("tuple-with-1.5MiB-random-bytes", (rng.randbytes(1500000),)), ("list-of-40000-ints", list(range(40000)))]
+    for label, sd in serdes[::3] + serdes[-3:] if tier == "quick" else serdes:
+        for name, v in bigs:
+            back = rt(label, sd, v, ("big", name, label))
+            if back is not None and not (back == v and type(back) is type(v)):
+                res.violation("value-changed:%s:big-pickle" % label.split("(")[0], "%s: %s came back changed" % (label, name), ("big", name, label))
+            res.count("big_pickles")
+        res.case(("big", label))
+    # 3. the name of a class is bound to a new class object between two round trips
+    for label, sd in serdes:
+        cls1 = valuegen.Rebindable
+        b1 = rt(label, sd, cls1(1), ("rebind", "instance-before-rebinding", label))
+        if b1 is not None and type(b1) is not cls1:
+            res.violation("type-changed:%s:Rebindable" % label.split("(")[0], "%s: instance came back as %r" % (label, type(b1)), ("rebind", 1, label))
+        cls2 = valuegen.rebind_rebindable()
+        b2 = rt(label, sd, cls2(2), ("rebind", "instance-of-the-newly-bound-class", label))
+        if b2 is not None and (type(b2) is not cls2 or b2 != cls2(2)):
+            res.violation("type-changed:%s:class-rebound-between-round-trips" % label.split("(")[0],
+                          "%s: after %s.Rebindable was bound to a new class object (generation %d), an instance of it came back as "
+                          "an instance of generation %r" % (label, valuegen.__name__, cls2.generation, getattr(type(b2), "generation", "?")),
+                          ("rebind", 2, label))
+        res.count("class_rebindings")
+        res.case(("rebind", label))
+
+
 def shard(tier, seed, idx, n):
     res = common.Result()
     st = install(res)
@@ -362,6 +452,8 @@ def shard(tier, seed, idx, n):
         legacy(res, st, rng)
     if idx == 1 % n:
         shared_serde(res, st, rng, tier)
+    if idx == 2 % n:
+        graphs_and_histories(res, st, rng, tier)
     return res
 
 
@@ -378,6 +470,8 @@ def replay(case):
         check_compressed(res, st, case[4], case[1], case[2], case[3], case)
     elif kind == "shared":
         shared_serde(res, st, random.Random(0), "quick")
+    elif kind in ("graph", "big", "rebind"):
+        graphs_and_histories(res, st, random.Random(0), "quick")
     res.case(case)
     for c in REQUIRED_COUNTERS:
         res.count(c)
